@@ -73,8 +73,8 @@ func MarshalValue(self Value, isInner bool) (out interface{}, skipNull bool) {
 		for _, value := range *self.Values {
 			marshaled, skipNull := MarshalValue(*value, true)
 
-			// skip builtin functions
-			if marshaled != nil && !skipNull {
+			// skip builtin functions (but keep `null` / `none` elements: they hold a position)
+			if !skipNull {
 				output = append(output, marshaled)
 			}
 		}
